@@ -1843,3 +1843,21 @@ package stun
 //@   requires c != nil
 //@   assigns c.closeConn
 //@   ensures !c.closeConn
+
+// the default collector's goroutine: on every tick it hands the reading of ITS CLOCK (not the ticker's timestamp)
+// to the collect function (C11: expiry is judged on the same clock the deadlines were computed from)
+//@ func (*tickerCollector).Start$1.f(fn, now)
+//@   requires now == ghost(now_last)
+//@   assigns everything, gmap(held), ghost(now_last), ghost(wr_n), gmapa(wr_data), gmap(wr_len), gmap(wr_errt), gmap(wr_errv), ghost(ag_n), gmap(ag_op), gmapa(ag_id), gmap(ag_dl), gmap(ag_errt), gmap(ag_errv), ghost(ev_n), gmapa(ev_tid), gmap(ev_errt), gmap(ev_errv), gmap(ev_msg), gmap(ev_h)
+//@   allocates
+//@   ensures *cell_a == old(*cell_a) && *cell_t == old(*cell_t) && *cell_f == old(*cell_f) && (*cell_a).clock == old((*cell_a).clock) && (*cell_a).close == old((*cell_a).close)
+//@ func (*tickerCollector).Start$1()
+//@   safety C11 C15
+//@   props C11
+//@   requires a != nil && a.clock != nil && t != nil && f != nil
+//@   assigns everything, ghost(wg_dones), gmap(held), ghost(now_last), ghost(wr_n), gmapa(wr_data), gmap(wr_len), gmap(wr_errt), gmap(wr_errv), ghost(ag_n), gmap(ag_op), gmapa(ag_id), gmap(ag_dl), gmap(ag_errt), gmap(ag_errv), ghost(ev_n), gmapa(ev_tid), gmap(ev_errt), gmap(ev_errv), gmap(ev_msg), gmap(ev_h)
+//@   allocates
+//@   ensures ghost(wg_dones) == old(ghost(wg_dones)) + 1
+//@   loop 0
+//@     assigns everything, gmap(held), ghost(now_last), ghost(wr_n), gmapa(wr_data), gmap(wr_len), gmap(wr_errt), gmap(wr_errv), ghost(ag_n), gmap(ag_op), gmapa(ag_id), gmap(ag_dl), gmap(ag_errt), gmap(ag_errv), ghost(ev_n), gmapa(ev_tid), gmap(ev_errt), gmap(ev_errv), gmap(ev_msg), gmap(ev_h)
+//@     invariant *cell_a != nil && (*cell_a).clock != nil && *cell_t != nil && *cell_f != nil && ghost(wg_dones) == old(ghost(wg_dones))
